@@ -170,7 +170,7 @@ Definition ann_ing_ok (w w' : aworld) (b : batch) : Prop :=
     In (i_full i) (map i_full (b_add b)) \/ In (i_full i) (map i_full (b_upd b)) \/ In (i_full i) (b_del b).
 
 Lemma amap_eq_dec (a c : amap * amap) : {a = c} + {a <> c}.
-Proof. repeat decide equality. Qed.
+Proof. repeat decide equality. Defined.
 
 Theorem sync_full_InvAH w : InvAH w (sync_full_a w).
 Proof.
